@@ -7,22 +7,24 @@ ShapeOut(c) == [count |-> ExpectedShape(c).count, otherResp |-> ExpectedShape(c)
                 code |-> ExpectedShape(c).code, alive |-> ExpectedShape(c).alive, panic |-> ""]
 BatchOut(c) == [alive |-> ExpectedBatch(c).alive, flushes |-> ExpectedBatch(c).flushes, flushAfter |-> ExpectedBatch(c).flushAfter,
                 flushSize |-> ExpectedBatch(c).flushSize, singles |-> ExpectedBatch(c).singles,
-                premature |-> ExpectedBatch(c).premature, panic |-> ""]
+                premature |-> ExpectedBatch(c).premature, panic |-> "", reuseOk |-> TRUE,
+                handled |-> SelectSeq(IdPerm(Len(c.members)), LAMBDA i : c.members[i] \in {"call", "notif"})]
 \* cases on which the code-shaped design itself breaks the property: leads, confirmed (or not) on the real code
 ShapeLeads == {c \in ShapeSet : ~HoldsShape(c, ShapeOut(c))}
-BatchLeads == {c \in BatchSet(MaxBatch) : ~HoldsBatch(c, BatchOut(c))}
+AllBatches == BatchSet(MaxBatch) \cup LongBatchSet
+BatchLeads == {c \in AllBatches : ~HoldsBatch(c, BatchOut(c))}
 
 ShapeJson(c) == [t |-> "shape", era |-> c.era, method |-> c.method, hasId |-> c.hasId, idc |-> c.idc, params |-> c.params,
                  members |-> <<>>, order |-> <<>>]
 BatchJson(c) == [t |-> "batch", era |-> c.era, method |-> "", hasId |-> FALSE, idc |-> "", params |-> "",
                  members |-> c.members, order |-> c.order]
-ASSUME PrintT(ToJson([shapes |-> Cardinality(ShapeSet), batches |-> Cardinality(BatchSet(MaxBatch)),
+ASSUME PrintT(ToJson([shapes |-> Cardinality(ShapeSet), batches |-> Cardinality(AllBatches),
                       shapeLeads |-> Cardinality(ShapeLeads), batchLeads |-> Cardinality(BatchLeads)]))
 HttpShapeJson(c) == [t |-> "httpshape", era |-> c.era, method |-> c.method, hasId |-> c.hasId, idc |-> c.idc, params |-> c.params,
                      members |-> <<>>, order |-> <<>>, json |-> c.json]
 HttpBatchJson(c) == [t |-> "httpbatch", era |-> c.era, method |-> "", hasId |-> FALSE, idc |-> "", params |-> "",
                      members |-> c.members, order |-> <<>>, json |-> c.json]
-ASSUME ndJsonSerialize("cases.ndjson", SetToSeq({ShapeJson(c) : c \in ShapeSet}) \o SetToSeq({BatchJson(c) : c \in BatchSet(MaxBatch)}))
+ASSUME ndJsonSerialize("cases.ndjson", SetToSeq({ShapeJson(c) : c \in ShapeSet}) \o SetToSeq({BatchJson(c) : c \in AllBatches}))
 ASSUME ndJsonSerialize("httpcases.ndjson", SetToSeq({HttpShapeJson(c) : c \in HttpShapes}) \o SetToSeq({HttpBatchJson(c) : c \in HttpBatchSet(MaxBatch)}))
 ASSUME PrintT(ToJson([httpShapes |-> Cardinality(HttpShapes), httpBatches |-> Cardinality(HttpBatchSet(MaxBatch))]))
 \* vacuity: every mandated code class occurs
